@@ -46,7 +46,7 @@ OUTSIDE_SRC = "{0} = 1\n"
 CONTAIN2 = Skeleton("p04_containment_classes_and_resources", {
     "main.py": "import outside\nimport ignored_mod\nimport lib\nfrom lib import twice\nclass Owner:\n    def __init__(self):\n        self.helper = outside.Helper()\n        self.other = ignored_mod.Other()\n        self.mate = lib.Mate()\n        self.{0} = 2\n    def work(self, {1}):\n        return self.{0} * {1}\nprint(Owner().work(3), twice(2), lib.twice(1), lib.Mate().size, outside.ext(1))\n",
     "lib.py": "class Mate:\n    size = 1\ndef twice({2}):\n    return {2} * 2\n",
-    "other.py": "import lib\nfrom lib import twice\nval = lib.twice(3) + twice(1) + lib.Mate().size\n",
+    "other.py": "import lib\nfrom lib import twice\nval = lib.twice(3) + twice(1) + lib.Mate().size + 4 * 2\n",
     "ignored_mod.py": "class Other:\n    pass\n",
     "dest.py": "yy = 0\n"})
 OUTSIDE2_SRC = "class Helper:\n    pass\ndef ext(v):\n    return v + 1\n"
@@ -71,13 +71,14 @@ def _contain2_ops(cf):
         "use_function.restricted_to_user": dict(api="use_function", path="lib.py", offset=def_twice, resources=["main.py"]),
         "inline.only_current_defined_out_of_project": dict(api="inline", path="main.py", offset=m.index("ext(1)"), remove=True, only_current=True),
         "inline.defined_out_of_project": dict(api="inline", path="main.py", offset=m.index("ext(1)")),
+        "use_function.restricted_to_definer": dict(api="use_function", path="lib.py", offset=def_twice, resources=["lib.py"]),
         "encapsulate_field.restricted_to_definer": dict(api="encapsulate_field", path="lib.py", offset=lb.index("size"), resources=["lib.py"]),
         "introduce_factory.restricted_to_definer": dict(api="introduce_factory", path="lib.py", offset=lb.index("Mate"), name="create", resources=["lib.py"]),
     }
 
 
 CONTAIN2_OPS = ["move_method.out_of_project_class", "move_method.ignored_class", "move_method.restricted", "rename.restricted_to_user", "rename.restricted_to_definer",
-                "inline.restricted_to_user", "inline.only_current", "inline.only_current_defined_out_of_project", "inline.defined_out_of_project", "change_signature.restricted_to_user", "use_function.restricted_to_user",
+                "inline.restricted_to_user", "inline.only_current", "inline.only_current_defined_out_of_project", "inline.defined_out_of_project", "change_signature.restricted_to_user", "use_function.restricted_to_user", "use_function.restricted_to_definer",
                 "encapsulate_field.restricted_to_definer", "introduce_factory.restricted_to_definer"]
 
 
